@@ -1364,9 +1364,17 @@ def _memmap_(
         if not prefix.exists():
             os.makedirs(prefix, exist_ok=True)
 
-        def save_metadata(cls=cls, _non_tensordict=_non_tensordict, prefix=prefix):
+        def save_metadata(
+            cls=cls,
+            _non_tensordict=_non_tensordict,
+            prefix=prefix,
+            batch_size=list(self.batch_size),
+        ):
             with open(prefix / "meta.json", "wb") as f:
                 metadata = {"_type": str(cls)}
+                if issubclass(cls, NonTensorData):
+                    # no _tensordict directory is written for non-tensor data
+                    metadata["batch_size"] = batch_size
                 to_pickle = {}
                 for key, value in _non_tensordict.items():
                     value = _from_shared_nontensor(value)
@@ -1429,6 +1437,7 @@ def _share_memory_(self):
 def _load_memmap(cls, prefix: Path, metadata: dict, **kwargs):
     non_tensordict = copy(metadata)
     del non_tensordict["_type"]
+    batch_size = non_tensordict.pop("batch_size", []) if issubclass(cls, NonTensorData) else []
     if os.path.exists(prefix / "other.pickle"):
         with open(prefix / "other.pickle", "rb") as pickle_file:
             non_tensordict.update(pickle.load(pickle_file))
@@ -1439,7 +1448,7 @@ def _load_memmap(cls, prefix: Path, metadata: dict, **kwargs):
     else:
         if not issubclass(cls, NonTensorData):
             raise ValueError("The _tensordict directory seems to be missing.")
-        td = TensorDict(device="cpu")
+        td = TensorDict(batch_size=batch_size, device="cpu")
     return cls._from_tensordict(td, non_tensordict)
 
 
